@@ -48,13 +48,18 @@ def guard_filter_nonzero(ctx, fn, bb):
     if not sites:
         return False, "no caller found"
     for f, b in sites:
-        def le(ft):
+        t = f["blocks"][b]["t"]
+        a_from = nshow(peel(expr_operand(f, t[2][2]))) if len(t[2]) > 3 else None
+        a_to = nshow(peel(expr_operand(f, t[2][3]))) if len(t[2]) > 3 else None
+
+        def le(ft, a_from=a_from, a_to=a_to):
             if ft[0] != "cmp" or ft[1] not in ("Le", "Lt"):
                 return False
-            return "since" in nshow(ft[2]) and "until" in nshow(ft[3])
+            # the values compared must be the very values handed to the store (not a clamped/derived copy)
+            return a_from is not None and nshow(peel(ft[2])) == a_from and nshow(peel(ft[3])) == a_to
         ok, a, bad = rules.dom_check(db, f, [b], le)
         if not (ok and a):
-            return False, "caller %s does not establish since <= until before calling filtered()" % cfg.short(f["key"])
+            return False, "caller %s does not establish from <= to for the values it passes to filtered() (%s, %s)" % (cfg.short(f["key"]), a_from, a_to)
     return True, ""
 
 
